@@ -1083,6 +1083,61 @@ def r_nebool(ctx, tenv, funcs, rule: str = 'R-NEBOOL') -> int:
     return n
 
 
+def r_rebuild(ctx, classes, rule: str = 'R-REBUILD') -> int:
+    """Copy-with-one-change: a method that re-creates its own (immutable) object through the constructor, handing at least
+    two ``self.<field>`` values to the parameters of the same name, hands over *every* parameter - an omitted trailing one
+    silently falls back to the constructor default (``orderby`` dropping the ``rows`` limit of the query it refines).
+    Returns #re-creating calls checked."""
+    n = 0
+    for ci in classes:
+        new = ci.methods.get('__new__') or ci.methods.get('__init__')
+        if new is None or new.args.vararg is not None or new.args.kwarg is not None:
+            continue
+        params = [a.arg for a in new.args.args[1:]] + [a.arg for a in new.args.kwonlyargs]
+        if len(params) < 3:
+            continue
+        for mname, m in ci.methods.items():
+            if mname in ('__new__', '__init__', '__getnewargs__', '__reduce__'):
+                continue
+            for c in core.walk_local(m):
+                if not isinstance(c, ast.Call) or any(isinstance(a, ast.Starred) for a in c.args) or any(k.arg is None for k in c.keywords):
+                    continue
+                callee = core.src(c.func)
+                if callee not in (ci.node.name, 'self.__class__', 'cls', 'type(self)'):
+                    continue
+                bound = dict(zip(params, c.args))
+                bound.update({k.arg: k.value for k in c.keywords})
+                own = [p for p, a in bound.items() if core.src(a) == f'self.{p}']
+                if len(own) < 2:
+                    continue
+                n += 1
+                missing = [p for p in params if p not in bound]
+                ctx.check(not missing, rule, f'{ci.ref}.{mname}', f'{ci.qual}.{mname} re-creates the object from its own fields {own} but leaves out {missing}: the constructor default replaces the current value', c, key=f'{ci.qual}.{mname}:rebuild')
+    return n
+
+
+def r_newargs(ctx, classes, rule: str = 'R-PICKLE') -> int:
+    """``__getnewargs__`` hands ``__new__`` one value per parameter it has (up to the first defaulted one it may stop only if
+    nothing after it is stored): a tuple shorter than the required parameters cannot even unpickle, and one that stops
+    before a *defaulted* parameter silently re-creates the object with the default (the Accept list of a request becomes
+    its content type).  Only classes defining both ``__new__`` and ``__getnewargs__`` with a plain tuple result.
+    Returns the number of classes checked."""
+    n = 0
+    for ci in classes:
+        gna, new = ci.methods.get('__getnewargs__'), ci.methods.get('__new__')
+        if gna is None or new is None:
+            continue
+        ret = next((r for r in core.walk_local(gna) if isinstance(r, ast.Return)), None)
+        if ret is None or not isinstance(ret.value, ast.Tuple) or any(isinstance(e, ast.Starred) for e in ret.value.elts):
+            continue
+        if new.args.vararg is not None or new.args.kwarg is not None:
+            continue
+        params = [a.arg for a in new.args.args[1:]]
+        n += 1
+        ctx.check(len(ret.value.elts) == len(params), rule, ci.ref, f'{ci.qual}.__getnewargs__ returns one value for each of the {len(params)} parameters of __new__ {params} (returns {len(ret.value.elts)}: `{core.src(ret.value)[:80]}`)', ret, key=f'{ci.qual}:newargs')
+    return n
+
+
 def r_reduce(ctx, classes, rule: str = 'R-PICKLE') -> int:
     """``__reduce__`` returning ``(cls, (args...))`` re-creates the object through its constructor: every constructor
     parameter the instance keeps (``self._p`` / ``self.p`` bound from parameter ``p`` in ``__init__``) is handed back, at the
